@@ -123,7 +123,9 @@ theorem parseTokens_amb_shape (tks : List Tk) (p : Parsed) (h : parseTokens tks 
     split at h
     · next hc => exact ⟨a, la, b, lb, y, rest, s1, s2, rfl, hc.1, hc.2.1, hc.2.2.1, hc.2.2.2, (mk_amb h).2⟩
     · exact absurd h (by simp)
-  · have := (mk_amb h).1; rw [ha] at this; exact absurd this (by decide)
+  · split at h
+    · have := (mk_amb h).1; rw [ha] at this; exact absurd this (by decide)
+    · exact absurd h (by simp)
   · have := (mk_amb h).1; rw [ha] at this; exact absurd this (by decide)
   · split at h
     · have := bind_mk_amb h; rw [ha] at this; exact absurd this (by decide)
